@@ -100,7 +100,13 @@ func (c *queueClass_[V]) MakeFromArray(values []V) QueueLike[V] {
 }
 
 func (c *queueClass_[V]) MakeFromSequence(values Sequential[V]) QueueLike[V] {
-	var queue = c.Make()
+	// Make sure the initial values fit, otherwise AddValue would block forever.
+	var capacity = c.defaultCapacity_
+	var size = uint(values.GetSize())
+	if size > capacity {
+		capacity = size
+	}
+	var queue = c.MakeWithCapacity(capacity)
 	var iterator = values.GetIterator()
 	for iterator.HasNext() {
 		var value = iterator.GetNext()
